@@ -3,6 +3,11 @@
 use super::*;
 use crate::verif_kani_lib_level::stub_format;
 
+/// Byron arm: CBOR-in-CBOR + CRC32, out of scope (n/c); replaced by "any failure" so the Shelley arms are decided alone
+fn stub_byron_from_bytes(_bytes: Vec<u8>) -> Result<ByronAddress, JsError> {
+    Err(JsError::from_str(""))
+}
+
 /// C11: variable-length natural encode -> decode is the identity and consumes exactly the encoding, all u64
 #[kani::proof]
 #[kani::unwind(12)]
@@ -14,6 +19,197 @@ fn varnat_roundtrip_all_u64() {
     assert!(enc[enc.len() - 1] & 0x80 == 0);
     match variable_nat_decode(&enc) {
         Some((y, n)) => { assert!(y == x); assert!(n == enc.len()); }
-        None => assert!(false, "decode of an encoding failed"),
+        None => { assert!(false, "decode of an encoding failed"); }
+    }
+}
+
+/// C02/C11: variable_nat_decode on ANY slice of length <= 11 returns (never panics); a result consumes <= 10 bytes and its
+/// last consumed byte terminates; an unterminated field is rejected.  BOUNDED by slice length 11 (one more than the longest canonical
+/// accepted encoding).
+#[kani::proof]
+#[kani::unwind(13)]
+fn varnat_decode_total_len11() {
+    let buf: [u8; 11] = kani::any();
+    let len: usize = kani::any();
+    kani::assume(len <= 11);
+    match variable_nat_decode(&buf[..len]) {
+        Some((_v, n)) => {
+            assert!(n >= 1 && n <= len);
+            assert!(buf[n - 1] & 0x80 == 0);
+        }
+        None => {}
+    }
+}
+
+fn expect_kind(header: u8) -> u8 { (header & 0xF0) >> 4 }
+
+/// C11/C02 family (i): header/length dispatch.  All 256 header bytes x all lengths 0..=60 x both strictness flags, zero payload.
+/// Dispatch depends on header and length only (payload bytes are copied, see family (ii)), so this is complete for the
+/// Shelley arms' accept/reject decision and classification.
+#[kani::proof]
+#[kani::stub(alloc::fmt::format, stub_format)]
+#[kani::stub(ByronAddress::from_bytes, stub_byron_from_bytes)]
+#[kani::unwind(62)]
+fn shelley_header_length_dispatch() {
+    let header: u8 = kani::any();
+    let len: usize = kani::any();
+    let lenient: bool = kani::any();
+    kani::assume(len <= 60);
+    let mut buf = [0u8; 60];
+    if len > 0 { buf[0] = header; }
+    let data = &buf[..len];
+    let r = Address::from_bytes_internal_impl(data, lenient);
+    if len == 0 { assert!(r.is_err()); return; }
+    let k = expect_kind(header);
+    let net = header & 0x0F;
+    match r {
+        Ok(addr) => {
+            match &addr.0 {
+                AddrType::Base(b) => {
+                    assert!(k <= 3);
+                    assert!(len == 57 || (lenient && len > 57));
+                    assert!(b.network == net);
+                    assert!(matches!(b.payment.0, CredType::Script(_)) == (header & 0x10 != 0));
+                    assert!(matches!(b.stake.0, CredType::Script(_)) == (header & 0x20 != 0));
+                }
+                AddrType::Ptr(p) => {
+                    assert!(k == 4 || k == 5);
+                    // zero payload: the three naturals are 0 0 0 (one byte each)
+                    assert!(len == 32 || (lenient && len > 32));
+                    assert!(p.network == net);
+                    assert!(matches!(p.payment.0, CredType::Script(_)) == (header & 0x10 != 0));
+                    assert!(p.stake.slot.0 == 0 && p.stake.tx_index.0 == 0 && p.stake.cert_index.0 == 0);
+                }
+                AddrType::Enterprise(e) => {
+                    assert!(k == 6 || k == 7);
+                    assert!(len == 29 || (lenient && len > 29));
+                    assert!(e.network == net);
+                    assert!(matches!(e.payment.0, CredType::Script(_)) == (header & 0x10 != 0));
+                }
+                AddrType::Reward(w) => {
+                    assert!(k == 14 || k == 15);
+                    assert!(len == 29 || (lenient && len > 29));
+                    assert!(w.network == net);
+                    assert!(matches!(w.payment.0, CredType::Script(_)) == (header & 0x10 != 0));
+                }
+                AddrType::Byron(_) => { assert!(false, "Byron arm is stubbed to fail"); }
+                AddrType::Malformed(_) => { assert!(false, "internal parser never yields Malformed"); }
+            }
+        }
+        Err(_) => {
+            // rejected: must NOT be a well-formed Shelley address of an accepted length
+            let ok_len = match k {
+                0..=3 => len == 57 || (lenient && len > 57),
+                4 | 5 => len == 32 || (lenient && len > 32),
+                6 | 7 | 14 | 15 => len == 29 || (lenient && len > 29),
+                _ => false,
+            };
+            assert!(!ok_len);
+        }
+    }
+}
+
+/// C11 family (ii-base): payload is copied verbatim into the credentials (base address, all 57 bytes symbolic)
+#[kani::proof]
+#[kani::stub(alloc::fmt::format, stub_format)]
+#[kani::stub(ByronAddress::from_bytes, stub_byron_from_bytes)]
+#[kani::unwind(60)]
+fn base_payload_copied() {
+    let data: [u8; 57] = kani::any();
+    kani::assume((data[0] & 0xF0) >> 4 <= 3);
+    match Address::from_bytes_internal_impl(&data, false) {
+        Ok(addr) => match &addr.0 {
+            AddrType::Base(b) => {
+                let p: &[u8; 28] = match &b.payment.0 { CredType::Key(h) => &h.0, CredType::Script(h) => &h.0 };
+                let s: &[u8; 28] = match &b.stake.0 { CredType::Key(h) => &h.0, CredType::Script(h) => &h.0 };
+                let i: usize = kani::any();
+                kani::assume(i < 28);
+                assert!(p[i] == data[1 + i]);
+                assert!(s[i] == data[29 + i]);
+            }
+            _ => { assert!(false); }
+        },
+        Err(_) => { assert!(false, "57-byte base address rejected"); }
+    }
+}
+
+/// C11 family (ii-single): enterprise / reward, all 29 bytes symbolic
+#[kani::proof]
+#[kani::stub(alloc::fmt::format, stub_format)]
+#[kani::stub(ByronAddress::from_bytes, stub_byron_from_bytes)]
+#[kani::unwind(32)]
+fn enterprise_reward_payload_copied() {
+    let data: [u8; 29] = kani::any();
+    let k = (data[0] & 0xF0) >> 4;
+    kani::assume(k == 6 || k == 7 || k == 14 || k == 15);
+    match Address::from_bytes_internal_impl(&data, false) {
+        Ok(addr) => {
+            let cred = match &addr.0 {
+                AddrType::Enterprise(e) => { assert!(k == 6 || k == 7); &e.payment }
+                AddrType::Reward(w) => { assert!(k >= 14); &w.payment }
+                _ => { assert!(false); return; }
+            };
+            let p: &[u8; 28] = match &cred.0 { CredType::Key(h) => &h.0, CredType::Script(h) => &h.0 };
+            let i: usize = kani::any();
+            kani::assume(i < 28);
+            assert!(p[i] == data[1 + i]);
+        }
+        Err(_) => { assert!(false, "29-byte enterprise/reward address rejected"); }
+    }
+}
+
+/// C11: to_bytes of a constructed enterprise / reward / base address writes header = kind bits | network and the hashes verbatim
+#[kani::proof]
+#[kani::unwind(60)]
+fn constructed_to_bytes_layout() {
+    let net: u8 = kani::any();
+    kani::assume(net <= 15);
+    let h1: [u8; 28] = kani::any();
+    let h2: [u8; 28] = kani::any();
+    let s1: bool = kani::any();
+    let s2: bool = kani::any();
+    let c1 = if s1 { Credential(CredType::Script(ScriptHash(h1))) } else { Credential(CredType::Key(Ed25519KeyHash(h1))) };
+    let c2 = if s2 { Credential(CredType::Script(ScriptHash(h2))) } else { Credential(CredType::Key(Ed25519KeyHash(h2))) };
+    let which: u8 = kani::any();
+    kani::assume(which < 3);
+    let i: usize = kani::any();
+    kani::assume(i < 28);
+    if which == 0 {
+        let b = Address(AddrType::Base(BaseAddress { network: net, payment: c1, stake: c2 })).to_bytes();
+        assert!(b.len() == 57);
+        assert!(b[0] == ((s1 as u8) << 4) | ((s2 as u8) << 5) | net);
+        assert!(b[1 + i] == h1[i] && b[29 + i] == h2[i]);
+    } else if which == 1 {
+        let b = Address(AddrType::Enterprise(EnterpriseAddress { network: net, payment: c1 })).to_bytes();
+        assert!(b.len() == 29);
+        assert!(b[0] == 0b0110_0000 | ((s1 as u8) << 4) | net);
+        assert!(b[1 + i] == h1[i]);
+    } else {
+        let b = Address(AddrType::Reward(RewardAddress { network: net, payment: c1 })).to_bytes();
+        assert!(b.len() == 29);
+        assert!(b[0] == 0b1110_0000 | ((s1 as u8) << 4) | net);
+        assert!(b[1 + i] == h1[i]);
+    }
+}
+
+/// C11/C02: the lenient (embedded) entry never fails and never panics: what is not a valid address is kept verbatim as Malformed
+/// and written back unchanged.  All headers x lengths 0..=40, zero payload (dispatch only).
+#[kani::proof]
+#[kani::stub(alloc::fmt::format, stub_format)]
+#[kani::stub(ByronAddress::from_bytes, stub_byron_from_bytes)]
+#[kani::unwind(62)]
+fn embedded_malformed_kept_verbatim() {
+    let header: u8 = kani::any();
+    let len: usize = kani::any();
+    kani::assume(len <= 40);
+    let mut buf = [0u8; 40];
+    if len > 0 { buf[0] = header; }
+    let data = &buf[..len];
+    let addr = Address::from_bytes_impl_unsafe(data);
+    if let AddrType::Malformed(m) = &addr.0 {
+        assert!(m.0.len() == len);
+        let out = addr.to_bytes();
+        assert!(out.len() == len);
+        if len > 0 { assert!(out[0] == header); }
     }
 }
